@@ -35,11 +35,16 @@ func gCorpus(c *Ctx, mode int) []*corpus.Spec {
 			want[s.Name] = true
 		}
 	default:
-		for _, n := range []string{"expr_std", "expr_nonassoc", "etf", "lvalue", "sep_ba", "nqlalr", "list_null", "opt_mid", "prec_mixed", "nullseq_OM", "etf_basefirst", "dangling_else", "len4", "len10", "stmts12", "redecl", "rlist"} {
+		for _, n := range []string{"expr_std", "expr_nonassoc", "etf", "lvalue", "sep_ba", "nqlalr", "list_null", "opt_mid", "prec_mixed", "nullseq_OM", "etf_basefirst", "dangling_else", "len4", "len10", "stmts12", "redecl", "rlist", "split_groups", "nullable_chain3", "big200"} {
 			want[n] = true
 		}
 	}
 	for _, s := range all {
+		if s.HasTag("big") && mode == 0 {
+			// the 200-state grammar is there for the state-number encoding (C01 C02 C06 C07,
+			// C03, C09); the pairwise and history harnesses would spend minutes on it
+			continue
+		}
 		if want[s.Name] {
 			out = append(out, s)
 		}
